@@ -127,6 +127,7 @@ func init() {
 				out = append(out, Instance{Scenario: "c02_resume", Params: mustJSON(ResumeParams{Backend: b}), Bound: 0, Shards: 2})
 			}
 			out = append(out, Instance{Scenario: "c02_readonly_dcp", Params: mustJSON(struct{}{}), Bound: 0, Note: "read-only mode through the real Dcp.Start(), also for a backend handed in with SetMetadata"})
+			out = append(out, Instance{Scenario: "c02_twogroups", Params: mustJSON(struct{}{}), Bound: 0, Note: "two consumer groups in one process on one bucket: each resumes from what is persisted for IT"})
 			out = append(out, Instance{Scenario: "c15_start", Params: mustJSON(StartParams{Reset: "latest", Mode: "infinite"}), Bound: 1, Shards: 4, Note: "autoReset=latest under single start-up faults: a session that starts has requested every vBucket without a checkpoint at its current high seqno (or the start-up terminated)"})
 			out = append(out, Instance{Scenario: "c12_ends", Params: mustJSON(EndsParams{Depth: 2}), Bound: 0, Shards: 4, Note: "the stream requests a running session issues when it re-opens a vBucket (after document / marker-only / seqno-advanced events): tracked position, the original end (unbounded in infinite mode)"})
 			out = append(out, Instance{Scenario: "c02_sessions", Params: mustJSON(SessionsParams{}), Bound: 0, Shards: 2, Note: "three sessions of one process with the store moving in between: events acknowledged and saved by each session (couchbase backend)"})
@@ -872,4 +873,83 @@ func (m *appendMeta) Load(vbIds []uint16, uuid string) (*wrapper.ConcurrentSwiss
 	st, ex, err := m.memMeta.Load(vbIds, uuid)
 	_ = append(vbIds, 65535)
 	return st, ex, err
+}
+
+// c02_twogroups: TWO consumer groups in one process on the same bucket (two sessions with different
+// dcp.group.name, couchbase metadata): each group resumes from what was persisted FOR IT - the second group,
+// which has no checkpoint, starts from zero although the first one has saved; its saves leave the first
+// group's checkpoints alone; a restart of either resumes from its own position.
+func init() {
+	scenarios["c02_twogroups"] = func(raw json.RawMessage) *vrt.Scenario {
+		return &vrt.Scenario{Name: "c02_twogroups", FreeChoices: true, NoTimerAlt: true, MaxSteps: 400000, Main: func() {
+			resetGlobals()
+			names := [][2]string{{"orders", "payments"}, {"g", "g2"}, {"a:b", "a"}}[vrt.Choose(3, true, "group-names")]
+			ackA := uint64(1 + vrt.Choose(3, true, "acknowledged-by-the-first-group"))
+			ackB := uint64(1 + vrt.Choose(3, true, "acknowledged-by-the-second-group"))
+			oA := EnvOpts{Vbs: 2, CheckpointType: "manual", Group: names[0]}
+			c := NewCluster(&oA)
+			for vb := uint16(0); vb < 2; vb++ {
+				c.Append(vb, marker(1, 3), mut(1, "k1"), mut(2, "k2"), mut(3, "k3"))
+			}
+			a := NewEnv(c, oA)
+			a.Stream.Open()
+			c.WaitIdle()
+			ackUpTo := func(e *Env, n uint64) {
+				for _, d := range e.Cons.Events {
+					if d.Seq <= n && !d.Acked {
+						d.Acked = true
+						d.Ctx.Ack()
+					}
+				}
+			}
+			ackUpTo(a, ackA)
+			a.Stream.Save()
+			// (the server model has one stream per vBucket: the sessions run one after the other)
+			a.Stream.Close(true)
+			c.WaitIdle()
+			desc := fmt.Sprintf("groups %q and %q in one process; the first has saved %d", names[0], names[1], ackA)
+			oB := EnvOpts{Vbs: 2, CheckpointType: "manual", Group: names[1]}
+			n0 := len(c.Requests)
+			b := NewEnv(c, oB)
+			b.Stream.Open()
+			c.WaitIdle()
+			for _, r := range c.Requests[n0:] {
+				if r.Kind == "openstream" && (r.Args[1] != 0 || r.Args[2] != 0) {
+					vrt.Failf("%s: the second group has no checkpoint, vb%d was requested from (vbuuid %d, seq %d)", desc, r.Vb, r.Args[1], r.Args[2])
+				}
+			}
+			ackUpTo(b, ackB)
+			b.Stream.Save()
+			b.Stream.Close(true)
+			c.WaitIdle()
+			for vb := uint16(0); vb < 2; vb++ {
+				da, okA := StoredDoc(c, srcBucket, names[0], vb)
+				db, okB := StoredDoc(c, srcBucket, names[1], vb)
+				if !okA || da.Checkpoint.SeqNo != ackA {
+					vrt.Failf("%s, the second then saved %d: the first group's checkpoint of vb%d is now %+v (present=%v)", desc, ackB, vb, da, okA)
+				}
+				if !okB || db.Checkpoint.SeqNo != ackB {
+					vrt.Failf("%s, the second then saved %d: the second group's checkpoint of vb%d is %+v (present=%v)", desc, ackB, vb, db, okB)
+				}
+			}
+			// both restart: each resumes from its own position
+			c.KillAgents()
+			a.Cons.Disabled, b.Cons.Disabled = true, true
+			for i, g := range names {
+				n1 := len(c.Requests)
+				e := NewEnv(c, EnvOpts{Vbs: 2, CheckpointType: "manual", Group: g})
+				e.Stream.Open()
+				c.WaitIdle()
+				want := []uint64{ackA, ackB}[i]
+				for _, r := range c.Requests[n1:] {
+					if r.Kind == "openstream" && r.Args[2] != want {
+						vrt.Failf("%s, the second saved %d; after a restart group %q requested vb%d from %d, its own stored position is %d", desc, ackB, g, r.Vb, r.Args[2], want)
+					}
+				}
+				c.KillAgents()
+				e.Cons.Disabled = true
+			}
+			vrt.SetOutcome(fmt.Sprintf("%v %d %d", names, ackA, ackB))
+		}}
+	}
 }
